@@ -1425,6 +1425,7 @@ lbool CoreSMTSolver::search(int nof_conflicts)
 #endif
     while (okContinue()) {
 
+        OPENSMT_VERIF(verif::stopPoint(1));
         search_counter++;
         CRef confl = propagate();
         runPeriodic();
